@@ -98,6 +98,37 @@ fn main() {
                 }
             }
         }
+        "mktree" => {
+            // rwsv mktree <dir>: the corpus tree (plus the C08 link targets) for the binary conformance step
+            let root = std::path::PathBuf::from(&args[2]);
+            let mut t = rwsv::corpus::tree();
+            t.file("targets/small.txt", b"small target behind a link\n");
+            t.link("link-small.txt", "@/targets/small.txt");
+            t.build(&root);
+        }
+        "serve" => {
+            // rwsv serve <requests.json> <out.json>: answer each request (hex) in-process, cwd = served tree
+            rwsv::drive::default_config();
+            let reqs: Vec<String> = serde_json::from_str(&std::fs::read_to_string(&args[2]).expect("requests")).expect("json");
+            let out_path = args[3].clone();
+            let h = std::thread::Builder::new()
+                .name("0".to_string())
+                .spawn(move || {
+                    reqs.iter()
+                        .map(|r| {
+                            let o = rwsv::drive::simple(rwsv::drive::Entry::Process, &rwsv::engine::unhex(r));
+                            if o.panic.is_some() {
+                                "PANIC".to_string()
+                            } else {
+                                rwsv::engine::hex(&o.raw)
+                            }
+                        })
+                        .collect::<Vec<String>>()
+                })
+                .unwrap();
+            let outs = h.join().unwrap();
+            std::fs::write(out_path, serde_json::to_vec(&outs).unwrap()).unwrap();
+        }
         "oracle-selftest" => match rwsv::oracle::selftest::run() {
             Ok(n) => {
                 eprintln!("oracle self-test: {} assertions hold", n);
